@@ -37,11 +37,14 @@
 //     relaxed direct dependency) are not PackageUpdates and are not constrained by the property.
 //   - which patches are proposed/chosen, Fixed/Introduced lists, errors returned by FixVulns/Update
 //     (C12/C13 territory); a patch the manifest writer refuses to apply is skipped.
+//   - requirements written with one shared Maven property are one textual change: for an update u of such a
+//     requirement, v0 is taken from the manifest without u AND without the updates of the packages sharing the property.
 //   - IgnoreDev of Update is not exercised.
 //
 // Cause keys: <strategy>:updates-none-package, :downgrade, :no-upward-move, :exceeds-level,
-// :none-requirement-changed, :hang, :panic:<site>; Maven Update additionally
-// maven-update:downgrade-when-current-missing and maven-update:nil-newreq (known defects).
+// :none-requirement-changed, :hang, :panic:<site>; pom:shared-property-collateral-change;
+// Maven Update additionally maven-update:downgrade-when-current-missing, maven-update:nil-newreq,
+// maven-update:nil-current.
 package main
 
 import (
@@ -90,10 +93,37 @@ func (o *tupleOut) logf(format string, a ...any) { o.log = append(o.log, fmt.Spr
 
 var levelName = []string{"major", "minor", "patch", "none"}
 
-func without(ups []result.PackageUpdate, i int) []result.PackageUpdate {
+// sharedProp: the other manifest packages whose requirement is written with the same
+// property as name's (one textual change moves all of them).
+func sharedProp(c *u.Case, name string) map[string]bool {
+	prop := ""
+	for _, q := range c.Manifest {
+		if u.FullName(c.Eco, q.Name) == name {
+			prop = q.Prop
+		}
+	}
+	out := map[string]bool{}
+	if prop == "" {
+		return out
+	}
+	for _, q := range c.Manifest {
+		if q.Prop == prop && u.FullName(c.Eco, q.Name) != name {
+			out[u.FullName(c.Eco, q.Name)] = true
+		}
+	}
+	return out
+}
+
+// without removes update i, and with it the updates of packages that share its property.
+func without(c *u.Case, ups []result.PackageUpdate, i int) []result.PackageUpdate {
+	grp := sharedProp(c, ups[i].Name)
 	out := make([]result.PackageUpdate, 0, len(ups)-1)
-	out = append(out, ups[:i]...)
-	return append(out, ups[i+1:]...)
+	for j, x := range ups {
+		if j != i && !grp[x.Name] {
+			out = append(out, x)
+		}
+	}
+	return out
 }
 
 // softLiteral: Maven plain soft requirement of name in the manifest, if any.
@@ -134,20 +164,23 @@ func checkUpdates(st string, c *u.Case, dir string, base []byte, ups []result.Pa
 	rFull, err := c.ResolveBytes(filepath.Join(dir, "full"), full)
 	if err != nil {
 		out.dc("patched-manifest-unresolvable")
-		out.logf("%s: patched manifest does not resolve: %v", kind, err)
+		out.logf("%s: patched manifest %v does not resolve: %v", kind, ups, err)
 		return
 	}
 	for i, up := range ups {
 		out.updates++
-		part, err := c.Materialise(filepath.Join(dir, "part"), base, without(ups, i))
+		part, err := c.Materialise(filepath.Join(dir, "part"), base, without(c, ups, i))
 		if err != nil {
 			out.dc("writer-refused-partial-patch")
 			continue
 		}
 		rPart, err := c.ResolveBytes(filepath.Join(dir, "part"), part)
-		if err != nil {
-			out.dc("partial-manifest-unresolvable")
+		if rPart == nil {
+			out.dc("partial-manifest-unreadable")
 			continue
+		}
+		if err != nil {
+			out.dc("partial-manifest-unresolvable") // v0 can still be a Maven soft literal
 		}
 		v0, n0 := u.VersionOf(rPart.Graph, up.Name)
 		missing := false
@@ -224,15 +257,24 @@ func noneRequirementsKept(st string, c *u.Case, dir string, base, written []byte
 			}
 		}
 		if !found {
-			out.add(st+":none-requirement-changed", "requirement %s %q (level none) is not in the written manifest any more: %v", q.Name, q.Version, b)
+			key := st + ":none-requirement-changed"
+			if len(sharedProp(c, q.Name)) > 0 {
+				key = "pom:shared-property-collateral-change"
+			}
+			out.add(key, "requirement %s %q (level none) is not in the written manifest any more: %v", q.Name, q.Version, b)
 		}
 	}
 }
 
 func classifyPanic(st string, p any, stack string) string {
 	site := ev.PanicSite(stack)
-	if st == stUpdate && strings.Contains(site, "suggestMavenVersion") && strings.Contains(stack, "semver.(*Version).String") {
-		return "maven-update:nil-newreq"
+	if st == stUpdate && strings.Contains(site, "suggestMavenVersion") {
+		switch {
+		case strings.Contains(stack, "semver.(*Version).String"):
+			return "maven-update:nil-newreq" // every known version filtered by the level
+		case strings.Contains(stack, "semver.(*Version).Difference"):
+			return "maven-update:nil-current" // range requirement that no known version satisfies
+		}
 	}
 	return st + ":panic:" + site
 }
@@ -415,7 +457,7 @@ func main() {
 	}
 
 	dcTotals := map[string]*atomic.Int64{}
-	for _, k := range []string{"writer-refused-patch", "patched-manifest-unresolvable", "writer-refused-partial-patch", "partial-manifest-unresolvable", "base-version-undefined", "new-version-undefined", "version-outside-reference-order", "manifest-unreadable", "manifest-parse-error", "manifest-resolve-error", "compute-patches-error", "fixvulns-error", "update-error"} {
+	for _, k := range []string{"writer-refused-patch", "patched-manifest-unresolvable", "writer-refused-partial-patch", "partial-manifest-unresolvable", "partial-manifest-unreadable", "base-version-undefined", "new-version-undefined", "version-outside-reference-order", "manifest-unreadable", "manifest-parse-error", "manifest-resolve-error", "compute-patches-error", "fixvulns-error", "update-error"} {
 		dcTotals[k] = &atomic.Int64{}
 	}
 	perStrategy := map[string]map[string]int64{}
@@ -462,7 +504,7 @@ func main() {
 					withPatch.Add(1)
 					r.Nontrivial.Add(1) // tuples are pairwise distinct by construction
 					if off+i < 1<<20 && r.SampleN() < 6 && (withPatch.Load()%1500) == 1 {
-						r.Sample(map[string]any{"strategy": st, "case": c, "observed": out.log})
+						r.Sample(map[string]any{"strategy": st, "case": *c, "observed": out.log})
 					}
 				}
 				for _, f := range out.findings {
@@ -482,12 +524,22 @@ func main() {
 			}
 		})
 		flush()
-		perStrategy[st] = map[string]int64{"generated": int64(base), "executed": tuples.Load(), "with_patch": withPatch.Load()}
+		ps := perStrategy[st]
+		if ps == nil {
+			ps = map[string]int64{}
+			perStrategy[st] = ps
+		}
+		ps["generated"] += int64(base)
+		ps["executed"] += tuples.Load()
+		ps["with_patch"] += withPatch.Load()
 	}
 
+	// simplest first across strategies: Update, then shape by shape override and relax
 	runAll(stUpdate, func(emit func(*u.Case)) { b.GenUpdate(emit) })
-	runAll(stOverride, func(emit func(*u.Case)) { b.GenFix(u.Maven, emit) })
-	runAll(stRelax, func(emit func(*u.Case)) { b.GenFix(u.NPM, emit) })
+	for _, sh := range u.FixShapes {
+		runAll(stOverride, func(emit func(*u.Case)) { b.GenFixShape(u.Maven, sh, emit) })
+		runAll(stRelax, func(emit func(*u.Case)) { b.GenFixShape(u.NPM, sh, emit) })
+	}
 
 	dc := map[string]int64{}
 	for k, a := range dcTotals {
